@@ -24,12 +24,12 @@ for d in sorted(os.listdir(os.path.join(ROOT, "seeded"))):
         subprocess.run("git -C /repo checkout -- .", shell=True)
         shutil.rmtree(scratch, ignore_errors=True)
     lines = [l for l in out.stdout.splitlines() if l.startswith("VIOLATION")]
-    obligations = sorted({re.sub(r".*replay=replays/[^-]+-(.*?)\.json.*", r"\1", l) for l in lines})
+    obligations = sorted({re.sub(r".*replays/[^-]+-(.*?)\.json.*", r"\1", l) for l in lines})
     confirmed = [l for l in lines if "no-failing-input-found" not in l]
     verdict = "detected" if lines else ("undecided (exit 3)" if out.returncode == 3 else "not detected")
     meta["detected_by"] = {"check": f"./check {prop}", "exit_code": out.returncode, "verdict": verdict,
                            "failed_obligations": obligations, "natively_replayed": len(confirmed) > 0}
     json.dump(meta, open(os.path.join(p, "meta.json"), "w"), indent=1)
-    summary[d] = f"{verdict}: {', '.join(o.split('-')[-1] for o in obligations)[:150]}"
+    summary[d] = f"{verdict}{' (replayed natively)' if confirmed else ''}: {', '.join(o.split('-')[-1] for o in obligations)[:150]}"
     print(d, summary[d], flush=True)
 json.dump(summary, open("/tmp/seedall_summary.json", "w"), indent=1)
